@@ -11,6 +11,7 @@ import (
 	"errors"
 	"fmt"
 	"io"
+	"log"
 	"math/rand"
 	"net/http"
 	"net/http/httptest"
@@ -18,6 +19,7 @@ import (
 	"strconv"
 	"strings"
 	"sync"
+	"sync/atomic"
 
 	"github.com/a-h/templ"
 
@@ -38,6 +40,8 @@ type final struct {
 	CT     string            `json:"ct"`
 	XErr   string            `json:"xerr"`
 	Body   []json.RawMessage `json:"body"`
+	// the specification's terminal outcome "the handler panicked": nothing beyond what was already committed
+	Aborted bool `json:"aborted"`
 }
 
 type edge struct {
@@ -144,6 +148,10 @@ func withInfo(r *http.Request, c config, caseID, prof int) *http.Request {
 func errorHandler(kind string, sawErr *error) func(r *http.Request, err error) http.Handler {
 	return func(r *http.Request, err error) http.Handler {
 		*sawErr = err
+		if kind == "nilhandler" {
+			// an error handler that has no page for this error and returns a nil http.Handler
+			return nil
+		}
 		return http.HandlerFunc(func(w http.ResponseWriter, r *http.Request) {
 			switch kind {
 			case "statusbody":
@@ -210,6 +218,53 @@ type response struct {
 	CT     string `json:"content_type"`
 	XErr   string `json:"x_err"`
 	Body   string `json:"body"`
+	// the handler did not return (panic seen by the recorder transport / connection aborted by net/http);
+	// Status 0 then means that no status line was committed
+	Aborted bool `json:"aborted"`
+}
+
+// tracked is a ResponseWriter over a ResponseRecorder that knows whether the header has been committed
+// (a recorder reports 200 for a handler that never wrote anything, which an aborted request must not be given).
+type tracked struct {
+	rec   *httptest.ResponseRecorder
+	wrote bool
+}
+
+func (t *tracked) Header() http.Header { return t.rec.Header() }
+func (t *tracked) WriteHeader(code int) {
+	t.wrote = true
+	t.rec.WriteHeader(code)
+}
+func (t *tracked) Write(b []byte) (int, error) {
+	t.wrote = true
+	return t.rec.Write(b)
+}
+
+// serveRecorded runs the handler on a recorder; a panic of the handler is the terminal outcome "aborted".
+func serveRecorded(h http.Handler, r *http.Request) (got response, panicked any) {
+	t := &tracked{rec: httptest.NewRecorder()}
+	func() {
+		defer func() { panicked = recover() }()
+		h.ServeHTTP(t, r)
+	}()
+	if panicked != nil && !t.wrote {
+		// nothing was committed before the panic: the client gets no status line, no header, no body
+		return response{Aborted: true}, panicked
+	}
+	res := t.rec.Result()
+	bb, _ := io.ReadAll(res.Body)
+	return response{Status: res.StatusCode, CT: res.Header.Get("Content-Type"), XErr: res.Header.Get("X-Err"), Body: string(bb),
+		Aborted: panicked != nil}, panicked
+}
+
+// panicLog counts the panics net/http recovers while serving (it logs "http: panic serving ...").
+type panicLog struct{ n atomic.Int64 }
+
+func (p *panicLog) Write(b []byte) (int, error) {
+	if strings.Contains(string(b), "http: panic serving") {
+		p.n.Add(1)
+	}
+	return len(b), nil
 }
 
 func short(s string) string {
@@ -230,6 +285,21 @@ type report struct {
 	Want      response `json:"spec"`
 	Got       response `json:"real"`
 	Outcome   string   `json:"spec_outcome"`
+	Panic     string   `json:"panic,omitempty"`
+}
+
+// carriesDocument reports whether a response body carries bytes of the document the failed component had written
+// (the chunks 1..k, inside the opening tag of the generated wrapper if there is one).
+func carriesDocument(got string, c config, caseID, prof int, generated bool) bool {
+	var doc strings.Builder
+	if generated {
+		doc.WriteString("<main>")
+	}
+	for i := 1; i <= c.K; i++ {
+		doc.WriteString(chunk(caseID, prof, i))
+	}
+	d := doc.String()
+	return d != "" && got != "" && (strings.HasPrefix(d, got) || strings.Contains(got, d))
 }
 
 func signature(c config) string {
@@ -266,7 +336,7 @@ func main() {
 	}
 
 	// one real server for the whole run: /<case>/<profile>/<generated>
-	srv := httptest.NewServer(http.HandlerFunc(func(w http.ResponseWriter, r *http.Request) {
+	srv := httptest.NewUnstartedServer(http.HandlerFunc(func(w http.ResponseWriter, r *http.Request) {
 		var id, prof, gen int
 		if _, err := fmt.Sscanf(r.URL.Path, "/%d/%d/%d", &id, &prof, &gen); err != nil || id >= len(cases) {
 			http.Error(w, "bad case", 599)
@@ -274,10 +344,13 @@ func main() {
 		}
 		handler(cases[id].Cfg, gen == 1).ServeHTTP(w, withInfo(r, cases[id].Cfg, id, prof))
 	}))
+	plog := &panicLog{}
+	srv.Config.ErrorLog = log.New(plog, "", 0)
+	srv.Start()
 	defer srv.Close()
 	client := srv.Client()
 
-	var runs, fails, drift, samples, genRuns int
+	var runs, fails, drift, samples, genRuns, abortedRuns, serverAborts int
 	outcomes := map[string]int{}
 	transports := map[string]int{}
 	sigs := map[string]int{}
@@ -297,45 +370,95 @@ func main() {
 				want.Body = "<main>" + want.Body + "</main>"
 			}
 		}
+		want.Aborted = e.Final.Aborted
+		// an error handler that returns a nil http.Handler: the only configuration for which a request may be aborted
+		// (handler.go calls ServeHTTP on the nil result). A transport error anywhere else is a machinery problem.
+		mayAbort := e.Cfg.Fail && e.Cfg.EH == "nilhandler"
 		var got response
+		panicText := ""
 		switch transport {
 		case "recorder":
-			rec := httptest.NewRecorder()
-			handler(e.Cfg, generated).ServeHTTP(rec, withInfo(httptest.NewRequest("GET", "/", nil), e.Cfg, id, prof))
-			res := rec.Result()
-			bb, _ := io.ReadAll(res.Body)
-			got = response{Status: res.StatusCode, CT: res.Header.Get("Content-Type"), XErr: res.Header.Get("X-Err"), Body: string(bb)}
+			var pv any
+			got, pv = serveRecorded(handler(e.Cfg, generated), withInfo(httptest.NewRequest("GET", "/", nil), e.Cfg, id, prof))
+			if pv != nil {
+				panicText = fmt.Sprint(pv)
+				if !mayAbort {
+					vhlib.Fatal("case %d (%+v): the handler panicked: %v", id, e.Cfg, pv)
+				}
+			}
 		case "server":
 			g := 0
 			if generated {
 				g = 1
 			}
+			before := plog.n.Load()
 			res, err := client.Get(fmt.Sprintf("%s/%d/%d/%d", srv.URL, id, prof, g))
 			if err != nil {
-				vhlib.Fatal("client: %v", err)
+				if !mayAbort {
+					vhlib.Fatal("client: %v", err)
+				}
+				// net/http recovered a panic of the handler and closed the connection: empty reply
+				got = response{Aborted: true}
+				panicText = "client: " + err.Error()
+			} else {
+				bb, err := io.ReadAll(res.Body)
+				res.Body.Close()
+				if err != nil && !mayAbort {
+					vhlib.Fatal("client read: %v", err)
+				}
+				got = response{Status: res.StatusCode, CT: res.Header.Get("Content-Type"), XErr: res.Header.Get("X-Err"), Body: string(bb),
+					Aborted: err != nil}
+				if err != nil {
+					panicText = "client read: " + err.Error()
+				}
 			}
-			bb, err := io.ReadAll(res.Body)
-			res.Body.Close()
-			if err != nil {
-				vhlib.Fatal("client read: %v", err)
+			if got.Aborted {
+				serverAborts++
+				// (the client transparently retries a GET whose reused connection was closed without a reply: 1 or 2 panics)
+				if plog.n.Load() == before {
+					vhlib.Fatal("case %d (%+v): the connection was aborted but net/http logged no panic of the handler", id, e.Cfg)
+				}
 			}
-			got = response{Status: res.StatusCode, CT: res.Header.Get("Content-Type"), XErr: res.Header.Get("X-Err"), Body: string(bb)}
+			if want.Aborted && e.Cfg.Stream && got.Aborted {
+				// streamed + aborted: net/http closes the connection without flushing the response's own buffer; how much
+				// of what the handler had written reaches the client is up to net/http (nothing, or the status line, the
+				// headers and a prefix of the body). Not part of C11; normalise what the model cannot know.
+				if got.Status == 0 && got.Body == "" {
+					got = want
+				} else if got.Status == want.Status && got.CT == want.CT && got.XErr == want.XErr && strings.HasPrefix(want.Body, got.Body) {
+					got = want
+				}
+			}
 		}
 		runs++
 		transports[transport]++
 		if generated {
 			genRuns++
 		}
+		if got.Aborted {
+			abortedRuns++
+		}
 		rep := report{N: e.N, Cfg: e.Cfg, Profile: profiles[prof][:e.Cfg.K], Transport: transport, Component: compName,
-			Want: want.short(), Got: got.short(), Outcome: e.Outcome}
+			Want: want.short(), Got: got.short(), Outcome: e.Outcome, Panic: panicText}
 		if got != want {
 			if e.Cfg.Stream {
 				// the property is about the buffered handler; streaming is only specified as documented
 				drift++
 				vhlib.Drift("streamed response differs from the documented behaviour in the model", rep)
+			} else if want.Aborted && !carriesDocument(got.Body, e.Cfg, id, prof, generated) {
+				// handler.go panics on a nil error handler result. Code that answers such a request in another way WITHOUT
+				// sending any byte of the failed document (e.g. falls back to the default 500 message, or sends an empty
+				// reply) still responds all-or-nothing: the model is out of date, the property is not affected.
+				drift++
+				vhlib.Drift("a nil error handler result is no longer answered by aborting the request; no document bytes are sent", rep)
 			} else {
 				fails++
-				vhlib.Fail(signature(e.Cfg), "buffered handler sent neither the whole document (configured status, content type) nor exactly the error response", rep)
+				what := "buffered handler sent neither the whole document (configured status, content type) nor exactly the error response"
+				if want.Aborted {
+					what = "the render failed and the error handler returned a nil http.Handler (the request is aborted, nothing is committed), " +
+						"but the buffered handler sent bytes of the partial document"
+				}
+				vhlib.Fail(signature(e.Cfg), what, rep)
 			}
 		} else if samples < 5 && e.Cfg.Fail && e.Cfg.K >= 2 && prof == 3 && (runs%53 == 0) {
 			samples++
@@ -375,5 +498,6 @@ func main() {
 		}
 	}
 	vhlib.Summary(map[string]any{"cases": len(cases), "runs": runs, "fails": fails, "drift": drift,
-		"outcomes": outcomes, "transports": transports, "branches": sigs, "generated_component_runs": genRuns})
+		"outcomes": outcomes, "transports": transports, "branches": sigs, "generated_component_runs": genRuns,
+		"aborted_runs": abortedRuns, "server_aborts": serverAborts, "server_panics_logged": plog.n.Load()})
 }
